@@ -90,7 +90,12 @@ func (c10) Run(c *run.Ctx, phase, idx int) {
 		twist = "bare"
 	} else {
 		var err error
-		pkt, err = bind.Build(a)
+		var how string
+		if r.Chance(1, 6) {
+			noise(r)
+		}
+		pkt, err, how = buildMaybeStaged(r, a)
+		c.Count("history", "build-"+how, 1)
 		if err != nil {
 			if errors.Is(err, bind.ErrNoSetter) {
 				c.Count("skipped", "no-setter/"+T, 1)
